@@ -62,6 +62,7 @@ theorem copy_can {s : St} {bs bd : Mbox} {u id : Nat} {l : Lit} {dst : String}
     unfold copy
     simp only [hb, hrn, hd, selectUids, List.filterMap_cons, hsel, List.filterMap_nil, List.map_cons, List.map_nil,
       beq_self_eq_true, ↓reduceIte, withTx, copyOutOfRecovery, importAll, h1, Bool.false_and, Bool.false_eq_true, h2, txFinish]
+    simp [copyUidItem]
   refine ⟨s2, hcopy, ⟨_, s.nextId, h2b, by simp, by rw [h2s]; exact h1s⟩, (copy_out_spec hcopy).1⟩
 
 /-- MOVE of one recovered message out of the recovery mailbox succeeds and delivers the bytes -/
@@ -94,7 +95,7 @@ theorem move_can {s : St} {bs bd : Mbox} {u id : Nat} {l : Lit} {dst : String}
     unfold move
     simp only [hb, hrn, hd, selectUids, List.filterMap_cons, hsel, List.filterMap_nil, List.map_cons, List.map_nil,
       beq_self_eq_true, ↓reduceIte, withTx, moveOutOfRecovery, importAll, h1, Bool.true_and, Bool.not_false, Bool.false_eq_true, h2, txFinish]
-    simp [moveSrcUids]
+    simp [copyUidItem]
   refine ⟨s2, hmove, ⟨_, s.nextId, h2b, by simp, ?_⟩, ?_⟩
   · rw [h2s]; simp only [hfe.2.1]; exact h1s
   · obtain ⟨_, hh⟩ := move_out_spec hmove
